@@ -18,11 +18,6 @@ func (t *Transaction) VResultChan() any         { return t.resultCh }
 
 func (m *TransactionMap) VEntries() map[string]*Transaction { return m.trMap }
 
-// Constants of the client package needed by the schedule lemma (root package harness).
-func VMaxRetryAttempts() int                 { return maxRetryAttempts }
-func VDefaultPermRefresh() time.Duration     { return defaultPermRefreshInterval }
-func VDefaultBindingRefresh() time.Duration  { return defaultBindingRefreshInterval }
-func VDefaultBindingCheck() time.Duration    { return defaultBindingCheckInterval }
 
 // VBind installs a confirmed channel binding for addr on the relayed socket and returns its number.
 func VBind(c *UDPConn, addr net.Addr) uint16 {
